@@ -76,6 +76,8 @@ impl Swarm {
     pub fn draw(rng: &mut Rng, prop: u32) -> Swarm {
         let mut w = base_weights(prop);
         let long = rng.chance(3);
+        // a marathon now and then: one game of a thousand plies (buffers, capacities, widths)
+        let marathon = rng.below(250) == 0;
         // swarm: every category weight is scaled by a random factor, some are switched off
         for (i, x) in w.iter_mut().enumerate() {
             let f = [0u32, 1, 2, 2, 4, 8][rng.below(6)];
@@ -84,7 +86,12 @@ impl Swarm {
                 *x = 20;
             }
         }
-        if long && rng.chance(60) {
+        if marathon {
+            w[CAT_PUSH] = w[CAT_PUSH].max(20) * 12;
+            w[CAT_POP] /= 8;
+            w[CAT_OUTCOME] /= 8;
+            w[CAT_LIST] /= 4;
+        } else if long && rng.chance(60) {
             // a long *game*: mostly accepted pushes, few pops, so that the chain itself gets long
             w[CAT_PUSH] = w[CAT_PUSH].max(20) * 6;
             w[CAT_POP] /= 4;
@@ -159,7 +166,7 @@ impl Swarm {
         };
         Swarm {
             // mostly short and diverse; now and then a long history (many push/pop cycles)
-            steps: if long { [800usize, 1200][rng.below(2)] } else { [64usize, 96, 128, 200, 300, 400][rng.below(6)] },
+            steps: if marathon { 2600 } else if long { [800usize, 1200][rng.below(2)] } else { [64usize, 96, 128, 200, 300, 400][rng.below(6)] },
             w,
             form_w,
             fault_pct,
